@@ -436,6 +436,54 @@ fn observer_scenario(cx: &mut Ctx, name: &str, rng: &mut Rng) {
     }
 }
 
+/// B5: which `BitField<ty, LSB, MSB>` declarations the macro accepts.  Each case is a one-register
+/// map in a scratch crate (path dependency on the repository under test) that `cargo check`
+/// either compiles or rejects; the model answers from `bfNormalise` + `bfVerify`.
+fn declaration_cases(rep: &mut Report) {
+    let manifest = std::fs::read_to_string(concat!(env!("CARGO_MANIFEST_DIR"), "/Cargo.toml")).unwrap();
+    let line = manifest.lines().find(|l| l.starts_with("cameleon-impl")).unwrap();
+    let impl_path = line.split('"').nth(1).unwrap().to_string();
+    let dir = std::env::current_dir().unwrap().join("c20-decl");
+    let _ = std::fs::create_dir_all(dir.join("src/bin"));
+    std::fs::write(dir.join("Cargo.toml"), format!(
+        "[package]\nname = \"c20decl\"\nversion = \"0.0.0\"\nedition = \"2018\"\n\n[workspace]\n\n[dependencies]\ncameleon-impl = {{ path = \"{impl_path}\" }}\n")).unwrap();
+    let _ = std::fs::copy(concat!(env!("CARGO_MANIFEST_DIR"), "/Cargo.lock"), dir.join("Cargo.lock"));
+    // (endianness, type, LSB literal, MSB literal)
+    let cases: &[(&str, &str, u32, u32)] = &[
+        ("LE", "u8", 1, 4), ("LE", "u8", 5, 3), ("LE", "u8", 0, 8), ("LE", "u8", 7, 7), ("LE", "i16", 0, 16),
+        ("LE", "u32", 31, 31), ("LE", "u64", 0, 63), ("LE", "u64", 0, 62), ("LE", "i64", 0, 63), ("LE", "i64", 64, 64),
+        ("BE", "u16", 15, 0), ("BE", "u16", 3, 9), ("BE", "u8", 8, 0), ("BE", "i32", 0, 0), ("BE", "u64", 63, 0), ("BE", "u8", 3, 8),
+    ];
+    for (i, (e, ty, l, m)) in cases.iter().enumerate() {
+        let len = int_bits(ty) / 8;
+        std::fs::write(dir.join(format!("src/bin/case{i}.rs")), format!(
+            "use cameleon_impl::memory::*;\n#[register_map(base = 0, endianness = {e})]\npub enum M {{\n    #[register(len = {len}, access = RW, ty = BitField<{ty}, LSB = {l}, MSB = {m}>)]\n    F,\n}}\n#[memory]\npub struct Mem {{ m: M }}\nfn main() {{ let mut x = Mem::new(); let _ = x.write::<M::F>(0); }}\n")).unwrap();
+    }
+    for (i, (e, ty, l, m)) in cases.iter().enumerate() {
+        let out = std::process::Command::new("cargo")
+            .args(["check", "--offline", "--quiet", "--bin", &format!("case{i}")])
+            .current_dir(&dir)
+            .env("CARGO_TARGET_DIR", dir.join("target"))
+            .env_remove("RUSTFLAGS")
+            .output();
+        let ans = match out {
+            Ok(o) if o.status.success() => "accept",
+            Ok(_) => "reject",
+            Err(_) => "cargo-unavailable",
+        };
+        // independent spec of the accepted declarations
+        let bits = int_bits(ty);
+        let spec = if *e == "LE" { l <= m && *m < bits } else { m <= l && *l < bits };
+        rep.case(&format!("decl {e} {ty} {l} {m}"), ans == "accept");
+        rep.count(&format!("declaration:{ans}"));
+        if (ans == "accept") != spec {
+            rep.violation(json!({"kind": "declaration", "endian": e, "ty": ty, "lsb": l, "msb": m}),
+                &format!("BitField<{ty}, LSB = {l}, MSB = {m}> ({e}): {ans}"), json!({"mem": "-", "ops": []}));
+        }
+        rep.expect(format!("c20 accepts {e} {ty} {l} {m}"), ans.into());
+    }
+}
+
 fn main() {
     let args = parse_args();
     let _ = catch(|| ());
@@ -488,6 +536,7 @@ fn main() {
         }
     }
     pure_functions(&mut rep);
+    declaration_cases(&mut rep);
     protection_histories(&mut rep, &mut rng, thorough);
     {
         let mut cx = Ctx { rep: &mut rep };
